@@ -257,6 +257,56 @@ pub fn run(ctx: &Ctx) -> i32 {
             }
         }
     }
+    // high-address slice: the same forms again behind `.org 0x12345`, where address arithmetic done in a
+    // 16-bit type would wrap (label-free, so only the encoder's use of the current address matters)
+    let mut high: Vec<(usize, Vec<Vec<i64>>)> = vec![];
+    for (fi, form) in forms.iter().enumerate() {
+        if form.core == Core::Reduced {
+            continue; // ATtiny20 has 1 Ki words of flash
+        }
+        let space = form.space();
+        let mut ts = vec![form.tuple_at(0), form.tuple_at(space - 1)];
+        for _ in 0..46 {
+            ts.push(form.tuple_at(rng.below(space)));
+        }
+        high.push((fi, ts));
+    }
+    fw::par_items(&high, |i, (fi, ts)| {
+        let form = &forms[*fi];
+        let mut r = Rng::for_case(ctx.seed, 0xC01_A, i as u64);
+        let org = 0x12345usize;
+        let mut src = format!(".org 0x{:x}\n", org);
+        let mut expect = vec![0u8; org * 2];
+        let mut texts = vec![];
+        for vals in ts {
+            let t = line_text(form, vals, &mut r);
+            src.push_str(&t);
+            src.push('\n');
+            texts.push(t);
+            expect.extend(isa::words_to_bytes(&isa::encode(form, vals)));
+        }
+        ctx.eval(ts.len() as u64);
+        let out = fw::build_str(&src);
+        let ok = matches!(&out, Outcome::Ok(b) if b.code == expect);
+        if !ok {
+            // attribute to the first differing line
+            let which = match &out {
+                Outcome::Ok(b) => (0..ts.len()).find(|k| {
+                    let w = form.words() * 2;
+                    let off = org * 2 + k * w;
+                    b.code.get(off..off + w) != expect.get(off..off + w)
+                }),
+                _ => None,
+            };
+            let k = which.unwrap_or(0);
+            ctx.violation(
+                format!("enc/{}/high-address", form.name),
+                format!("`{}` at word address 0x{:x}+: {}", texts[k].trim(), org, fw::clip(&format!("{:?}", out.brief()), 160)),
+                json!({"source": format!(".org 0x{:x}\n{}\n", org, texts[k]), "form": form.name, "vals": ts[k], "high_address": org}),
+            );
+        }
+    });
+    ctx.put("high_address_slice_forms", json!(high.len()));
     let sh = Shared {
         first_words: (0..1024).map(|_| AtomicU64::new(0)).collect(),
         per_mn: Mutex::new(BTreeMap::new()),
@@ -290,7 +340,16 @@ pub fn replay(ctx: &Ctx, case: &Value) -> i32 {
     let src = case["source"].as_str().unwrap_or("");
     let text = src.lines().last().unwrap_or("");
     ctx.eval(1);
-    check_line(ctx, form, &vals, text);
+    if let Some(org) = case["high_address"].as_u64() {
+        let out = fw::build_str(src);
+        let mut expect = vec![0u8; org as usize * 2];
+        expect.extend(isa::words_to_bytes(&isa::encode(form, &vals)));
+        if !matches!(&out, Outcome::Ok(b) if b.code == expect) {
+            ctx.violation(format!("enc/{}/high-address", form.name), "replayed case still deviates".to_string(), case.clone());
+        }
+    } else {
+        check_line(ctx, form, &vals, text);
+    }
     ctx.distinct(1);
     ctx.distinct(2);
     fw::finish(ctx, "replay", &[])
